@@ -94,7 +94,13 @@ func (m Modules) Len() int {
 }
 
 func (m Modules) Less(i, j int) bool {
-	return m[i].Name < m[j].Name
+	if m[i].Name != m[j].Name {
+		return m[i].Name < m[j].Name
+	}
+	// Files in different directories can have the same name. The modules are
+	// collected from a map, so without a tie-break their order in the index
+	// would differ from run to run.
+	return m[i].File < m[j].File
 }
 
 func (m Modules) Swap(i, j int) {
